@@ -2,28 +2,32 @@
 C04 — BMS reading places every object at the time its measure position and tempo imply.
 Property theorems about the executable reader model `Reamber/Model/BMS.lean` (tied to
 reamber/bms/{BMSMap,BMSChannel,BMSMapMeta}.py by the correspondence check and by the generated layout tables)
-against the by-the-book denotation `Reamber/Spec/BMS.lean`.  Helper lemmas: `Lemmas/BMS.lean`, `Lemmas/BMSTime.lean`.
+against the by-the-book denotation `Reamber/Spec/BMS.lean`.  Helper lemmas: `Lemmas/BMS*.lean`.
 
-The full statement is now ONE theorem, `read_eq_denote`:
+The full statement is ONE theorem, `read_eq_denote` (and `read_file_eq_denote` for the FILE entry point):
 
   ∀ layout (LayoutOK: injective, columns < MAX_KEYS — the five generated layouts: `layouts_ok`) lines d,
-    denote layout lines = some d →
+    denoteText layout lines = some d →                       -- the specification's OWN lexer, header table, header record
     lanes in position order in the file (¬D05) → gridCompatible (grid 96) d.tempo (¬D22) →
-    ∃ hits holds, readNotes defaultGrid layout lines = .ok (hits, holds) ∧ hits ~ d.hits ∧ holds ~ d.holds ∧
-      ∀ c, read defaultGrid layout lines = .ok c → c.hits = hits ∧ c.holds = holds ∧ c.header = d.header
+    ∃ c, read defaultGrid layout lines = .ok c ∧ c.hits ~ d.hits ∧ c.holds ~ d.holds ∧ c.header = d.header ∧
+      (c.tempo = d.tempo ∨ d.tempo = _ :: c.tempo with c.tempo starting at (0,0)) ∧
+      interleaveB 0 false (inPts 0 c.tempo) (outPtsOff c.bpms)
 
-assembled from: the level-wide bridge "reader events = by-the-book objects" (`events_eq`, per pair
-`pairEvent_eq_objEvent`; `laneEvs_events` for a lane, `tempoOf_events_perm` for the tempo channels), the pairing
-invariant (`pairing_invariant`, `lanes_independent`, `loop_final`), the reader's tempo list against the
-by-the-book one (`model_tempo_cases`: equal, or its tail when the first tempo object overrides the header tempo),
-the times (`bms_times`: gridCompatible ⇒ `TimingMap.offsets` as run = `timeAt`, through C10's
-`offsets_correct_fromBcSnap` and `stableArgsort_sortsAsc` — no re-derivation hypothesis left), the flattening of
-lanes (`flatHits_perm`), and the header (`header_retained`).
-Also: the layout tables (`layouts_tie`, `layouts_wellformed`), `slot_position`, `hits_order_independent`, and
-the two counterexamples that make the hypotheses necessary (D05, D22).
-Still outside (stated in `read_eq_denote`'s docstring): success of the final `tm.reseat()` inside `read` (C11's
-domain — `readNotes`, everything before it, is proved to succeed), the byte lexer shared by `read` and `denote`,
-and one layout on both sides (generated vs by-the-book tables are related by `layouts_tie`).
+All hypotheses are about the file.  Assembled from
+* the two lexers: `trimBlank_eq_strip`, `bookLine_classify` (line classifier), `bookTable_eq_fold` (header dict),
+  `bookDoc_parseDoc` (line loop), `bookHeader_readHeader` (`_read_file_header`), `denoteText_eq_denote`; where they
+  part: `bookLine_none_iff`, `lexer_dialect_facts`; file splitting `pyLines_eq_fileLines`,
+  `read_file_splits_at_control_bytes`;
+* the semantic core `read_eq_denote_shared`: the level-wide bridge "reader events = by-the-book objects"
+  (`events_eq`, `laneEvs_events`, `tempoOf_events_perm`), the pairing invariant (`pairing_invariant`,
+  `lanes_independent`, `loop_final`), the reader's tempo list against the by-the-book one (`model_tempo_cases`), the
+  times (`bms_times` through C10's `offsets_correct_fromBcSnap`), the flattening of lanes (`flatHits_perm`);
+* the final `tm.reseat()`: `bms_tempo_in_reseat_dom` (grid-compatible 4/4 lists lie in C11's `Dom`, through
+  `dom_of_gridCompatible`), `finishRead_ok` (C10's `bcsOfBco_rederive` + C11's `fromBcSnap_reseat_keeps_times`).
+Also: the layout tables (`layouts_tie`, `layouts_wellformed`), `slot_position`, `hits_order_independent`,
+`metadata_retained`, and the two counterexamples that make the hypotheses necessary (D05, D22).
+Still shared by model and specification: the number parsers (`parseFloat`, `parseNat`, `parseHex2`) and one layout on
+both sides (`layouts_tie` relates generated and by-the-book tables); the shift_jis codec is not modelled.
 -/
 import Reamber.Lemmas.BMS
 import Reamber.Lemmas.BMSTime
